@@ -88,6 +88,24 @@ impl AssemblyBuffer {
     // unwrap: u32 should fit into usize
     let from_byte = start_frag_from_0 * frag_size;
 
+    // Sanity check: The fragments must fit into this assembly buffer.
+    // The DATAFRAG may be inconsistent with the one that created the buffer
+    // (different data size or fragment size), or claim more fragments than there are.
+    if start_frag_from_0 + frags_in_submessage > self.fragment_count
+      || from_byte > self.buffer_bytes.len()
+    {
+      warn!(
+        "Discarding DATAFRAG that does not fit the assembly buffer: fragment_starting_num={} \
+         fragments_in_submessage={} frag_size={} but fragment_count={} buffer length={}",
+        fragment_starting_num,
+        frags_in_submessage,
+        frag_size,
+        self.fragment_count,
+        self.buffer_bytes.len()
+      );
+      return;
+    }
+
     // Last fragment might be smaller than fragment size
     // Copy reported number of fragments, or as much data as there is, whichever
     // ends first.
